@@ -206,7 +206,7 @@ func check(w world) (nt bool, labels []string, sig string, err error) {
 	var qmu sync.Mutex
 	enqueue := func() {
 		for _, c := range eng.TakeChanges() {
-			q := fakebinlog.Queued{Change: c, NCols: len(def.Cols) + def.ExtraCols, TableID: tableID}
+			q := fakebinlog.Queued{Change: c, NCols: eng.NCols(w.table), TableID: tableID}
 			if pendingCorrupt {
 				q.Corrupt = "type"
 				pendingCorrupt = false
@@ -263,7 +263,7 @@ func check(w world) (nt bool, labels []string, sig string, err error) {
 	var lives []*liveQuery
 	var inSelect *action
 	var inSelMu sync.Mutex
-	eng.BeforeSelect = func() {
+	beforeSelect := func() {
 		inSelMu.Lock()
 		a := inSelect
 		inSelect = nil
@@ -274,7 +274,7 @@ func check(w world) (nt bool, labels []string, sig string, err error) {
 		}
 	}
 	var afterSelect *action
-	eng.AfterSelect = func() {
+	afterSelectHook := func() {
 		inSelMu.Lock()
 		a := afterSelect
 		afterSelect = nil
@@ -285,8 +285,12 @@ func check(w world) (nt bool, labels []string, sig string, err error) {
 			time.Sleep(time.Millisecond) // let RunPollLoop process it while the query is still returning
 		}
 	}
+	eng.SetSelectHooks(beforeSelect, afterSelectHook)
 	startLive := func(a action) {
-		lq := &liveQuery{filter: a.filter, descr: a.Descr, startedAtCommit: commits}
+		qmu.Lock()
+		startCommits := commits
+		qmu.Unlock()
+		lq := &liveQuery{filter: a.filter, descr: a.Descr, startedAtCommit: startCommits}
 		lq.rr = reactive.NewRerunner(ctx, func(ctx context.Context) (interface{}, error) {
 			if a.batched {
 				ctx = batch.WithBatching(ctx)
@@ -366,13 +370,16 @@ func check(w world) (nt bool, labels []string, sig string, err error) {
 			eng.AddColumn(w.table)
 			qmu.Lock()
 			tableID++
+			queued := len(queue)
 			qmu.Unlock()
 			altered = true
-			if len(queue) > 0 {
+			if queued > 0 {
 				undecodable = true
 			}
 		case "corrupt":
+			qmu.Lock()
 			pendingCorrupt = true
+			qmu.Unlock()
 			undecodable = true
 		case "stop":
 			if len(lives) > 0 {
